@@ -210,13 +210,12 @@ Lemma ver_cond skip (s : session) name :
 Proof. destruct skip; [reflexivity|]. intros H. destruct (H eq_refl) as [-> ->]. reflexivity. Qed.
 
 Lemma load13 sp sv sn ad skip suite s ca now omit tlen e :
-  let c2 := mkConn sp sn ad sv now omit skip suite tlen in
-  good sp sv (c_name c2) skip V13 suite s -> lookup (c_name c2) ca = Some s ->
+  good sp sv (c_name (mkConn sp sn ad sv now omit skip suite tlen)) skip V13 suite s -> lookup (c_name (mkConn sp sn ad sv now omit skip suite tlen)) ca = Some s ->
   mem V13 (sp_vers sp) = true -> mem suite (sp_suites sp) = true ->
   now <= s_notafter s -> now <= s_useby s ->
-  load_session ca c2 e = mkLoaded ca (Some (ViaPsk, s)).
+  load_session ca (mkConn sp sn ad sv now omit skip suite tlen) e = mkLoaded ca (Some (ViaPsk, s)).
 Proof.
-  intros c2 G L Mv Ms T1 T2. subst c2. destruct G as [gv gk gtv gts gte gver g12 g13]. destruct (g13 eq_refl) as [Hh Hn].
+  intros G L Mv Ms T1 T2. destruct G as [gv gk gtv gts gte gver g12 g13]. destruct (g13 eq_refl) as [Hh Hn].
   unfold load_session. rewrite L. cbn [c_spec c_now c_skipverify]. rewrite gv, Mv. cbn [negb].
   replace (s_notafter s <? now) with false by (symmetry; apply N.ltb_ge; exact T1).
   rewrite (ver_cond _ _ _ gver). rewrite N.eqb_refl. cbn [negb].
@@ -265,12 +264,11 @@ Proof.
 Qed.
 
 Lemma load12 sp sv sn ad skip suite s ca now omit tlen :
-  let c2 := mkConn sp sn ad sv now omit skip suite tlen in
-  good sp sv (c_name c2) skip V12 suite s -> lookup (c_name c2) ca = Some s ->
+  good sp sv (c_name (mkConn sp sn ad sv now omit skip suite tlen)) skip V12 suite s -> lookup (c_name (mkConn sp sn ad sv now omit skip suite tlen)) ca = Some s ->
   mem V12 (sp_vers sp) = true -> now <= s_notafter s ->
-  load_session ca c2 (has_ems sp) = mkLoaded ca (Some (ViaTicket, s)).
+  load_session ca (mkConn sp sn ad sv now omit skip suite tlen) (has_ems sp) = mkLoaded ca (Some (ViaTicket, s)).
 Proof.
-  intros c2 G L Mv T1. subst c2. destruct G as [gv gk gtv gts gte gver g12 g13].
+  intros G L Mv T1. destruct G as [gv gk gtv gts gte gver g12 g13].
   destruct g12 as [M1 [M2 E]]; [discriminate|].
   unfold load_session. rewrite L. cbn [c_spec c_now c_skipverify]. rewrite gv, Mv. cbn [negb].
   replace (s_notafter s <? now) with false by (symmetry; apply N.ltb_ge; exact T1).
@@ -290,7 +288,7 @@ Lemma good_resumes12 sp sv sn ad skip suite s ca now omit tlen :
 Proof.
   intros c2 G L Ng Ht Wf T1 T3.
   pose proof (negotiate_mem _ _ _ Ng) as Mv.
-  pose proof (load12 sp sv sn ad skip suite s ca now omit tlen G L Mv T1) as LD. fold c2 in LD.
+  pose proof (load12 sp sv sn ad skip suite s ca now omit tlen G L Mv T1) as LD.
   assert (B : exists p, build ca c2 = BOk ca (Some (ViaTicket, s)) p).
   { unfold build, c2. cbn [c_spec c_omit].
     destruct (sp_go sp) eqn:Go.
